@@ -12,8 +12,9 @@
 //      opt=<pairs> reports that the statement leaves open, dropped from the output.
 // Observables: the (port, address) pairs handed to the walker callback, as a sorted list (the
 // property fixes no order); the string in the buffer afterwards; for every pair which leaf
-// callbacks run when the address is sent back as a message (W: Ports::dispatch without location
-// buffer and the harness' own callbacks; R: Ports::dispatch with location buffer and the sugar
+// callbacks run when the address is sent back as a message (W, D: Ports::dispatch without location
+// buffer and again with one — linear search resp. the lookup strategy the library picked for each
+// table — and the harness' own callbacks; R: Ports::dispatch with location buffer and the sugar
 // callbacks).
 // Protocol: see lean/Driver/WalkEngine.lean.
 #include "common.h"
@@ -39,6 +40,9 @@ struct Tree {
     std::vector<std::unique_ptr<Exact>> blocks;
     std::vector<std::unique_ptr<DynPorts>> tables;
     std::map<const rtosc::Port *, std::string> ix;
+    // some port with a sub-table has a name without trailing '/' (test/walk-ports.cpp has such tables): dispatch
+    // enters its sub-table without consuming the component, so `loc` can grow beyond "/" + address
+    bool slashless = false;
     const char *keep(bytes b, bool terminate) {
         if (terminate) b.push_back(0);
         blocks.emplace_back(new Exact(b));
@@ -101,6 +105,11 @@ static bool parse_port(const std::string &s, size_t &i, Tree &t, DynPorts *into,
         DynPorts *sub = parse_ports(s, i, t, ixs);
         if (!sub) return false;
         int k = slash_count(name);
+        {
+            size_t e = 0;
+            while (e < name.size() && name[e] != ':') ++e;
+            if (e == 0 || name[e - 1] != '/') t.slashless = true;
+        }
         into->add(rtosc::Port{nm, md, sub, [sub, k](const char *msg, rtosc::RtData &d) {
             const char *m0 = msg;
             for (int q = 0; q < k; ++q) {
@@ -171,6 +180,31 @@ static std::string join(const std::vector<std::string> &v, const char *sep) {
     std::string o;
     for (size_t i = 0; i < v.size(); ++i) { if (i) o += sep; o += v[i]; }
     return o;
+}
+
+// ">" + the leaf callbacks that run when `msg` (address `rel`) is dispatched without a location buffer
+// (every table is searched linearly) + ">" + the same with a location buffer, where every table is
+// looked up with the strategy the library picked for it (perfect hash or linear).  The buffer is an
+// exact-size block for "/" + address + terminator (256 bytes more for a tree with a sub-tree name that
+// lacks its trailing '/').
+static std::string dispatch_both(const rtosc::Ports *root, const char *msg, const std::string &rel, bool slashless) {
+    std::string out;
+    {
+        g_hits.clear();
+        rtosc::RtData d;
+        d.loc = nullptr; d.loc_size = 0; d.obj = nullptr;
+        root->dispatch(msg, d, true);
+        out += ">" + join(g_hits, "+");
+    }
+    {
+        g_hits.clear();
+        Exact loc(rel.size() + 1 + (slashless ? 256 : 0), 0x55);
+        rtosc::RtData d;
+        d.loc = loc.c(); d.loc_size = loc.n; d.obj = nullptr;
+        root->dispatch(msg, d, true);
+        out += ">" + join(g_hits, "+");
+    }
+    return out;
 }
 
 // ---------------------------------------------------------------- compiled trees
@@ -335,13 +369,7 @@ static std::string step(const std::string &line) {
                 bool ok = false;
                 auto msg = zero_message(rel, first_tags(c.port->name), ok);
                 if (!ok) s += ">nomsg";
-                else {
-                    g_hits.clear();
-                    rtosc::RtData d;
-                    d.loc = nullptr; d.loc_size = 0; d.obj = nullptr;
-                    root->dispatch(msg->c(), d, true);
-                    s += ">" + join(g_hits, "+");
-                }
+                else s += dispatch_both(root, msg->c(), rel, t.slashless);
             }
             cs.push_back(s);
         }
@@ -370,13 +398,7 @@ static std::string step(const std::string &line) {
             bool ok = false;
             auto msg = zero_message(rel, first_tags(c.port->name), ok);
             if (!ok) s += ">nomsg";
-            else {
-                g_hits.clear();
-                rtosc::RtData d;
-                d.loc = nullptr; d.loc_size = 0; d.obj = nullptr;
-                root->dispatch(msg->c(), d, true);
-                s += ">" + join(g_hits, "+");
-            }
+            else s += dispatch_both(root, msg->c(), rel, t.slashless);
             cs.push_back(s);
         }
         return finish(cs, ex, buf);
